@@ -323,7 +323,8 @@ def run(ctx):
     ctx.require(loops, 'Pool.run: event loop not found')
     lc = loops[0].test
     parts = [norm(v) for v in (lc.values if isinstance(lc, ast.BoolOp) and isinstance(lc.op, ast.And) else [lc])]
-    ok = any(p == 'self._pending' for p in parts) and any('difference(self._closed)' in p for p in parts)
+    vals = lc.values if isinstance(lc, ast.BoolOp) and isinstance(lc.op, ast.And) else [lc]
+    ok = any(p == 'self._pending' for p in parts) and any(denotes_live_workers(ctx, pool, v) for v in vals)
     ctx.check('R5', 'event loop runs while results are pending and a worker is left', ok, 'Pool.run', 'loop-condition:' + ' and '.join(parts),
               'the event loop condition lost a conjunct: it either stops with results pending or waits forever on dead workers', where=loc(run_f, loops[0]))
     fin = [t for t in walk_local(run_f.node) if isinstance(t, ast.Try) and any(isinstance(s, ast.Assign) and any(is_self_attr(x, '_map_guard') for x in s.targets)
@@ -469,10 +470,54 @@ BOOKKEEPING = {
     '_pending_per_worker': {'run': {'assign'}, 'handle_enqueue': {'append'}, 'handle_new_result': {'pop'}, 'handle_death': {'clear'}, '__init__': {'assign'}},
     '_retries': {'run': {'assign'}, 'next_inputs': {'pop'}, 'handle_death': {'extend'}, 'handle_unused_data': {'insert', 'append'}, '__init__': {'assign'}},
     '_closed': {'handle_death': {'add'}, '__init__': {'assign'}},
+    # the table of result pipes the event loop polls: an entry goes away only where its pipe has been read to the end (the EOF branch of the loop itself),
+    # when the pool is closed, or when a worker is restarted / could not be added - never from a closure that runs while the loop walks a batch of ready pipes
+    '_queues': {'run': {'del', 'pop'}, 'add_worker': {'setitem', 'pop'}, 'attach': {'setitem'}, 'restart_workers': {'setitem', 'pop'}, '_close': {'clear'}, '__init__': {'assign'}},
     '_depleted': {'run': {'assign'}, 'next_inputs': {'assign'}, '__init__': {'assign'}},
 }
 MUTATORS = ('append', 'extend', 'insert', 'pop', 'clear', 'add', 'remove', 'discard', 'update', 'popitem', 'setdefault', 'difference_update', 'intersection_update',
             'symmetric_difference_update', 'sort', 'reverse', 'appendleft', 'popleft', 'extendleft', 'rotate', 'move_to_end', '__setitem__', '__delitem__', '__ior__', '__iand__', '__isub__')
+
+
+def denotes_live_workers(ctx, pool, e, depth=0):
+    """`e`, tested for truth, says "a worker that has not been written off is left": the workers' ids minus the closed set as a *set* operation or an
+    element-wise filter (possibly under len() / bool(), possibly behind a property or a method of the Pool that returns such an expression).
+    Subtracting sizes - len(ids) - len(closed) - does not: ids of restarted workers stay in the closed set for ever."""
+    while isinstance(e, ast.Call) and isinstance(e.func, ast.Name) and e.func.id in ('len', 'bool', 'list', 'set', 'tuple', 'sorted') and len(e.args) == 1 and not (
+            e.func.id == 'set' and False):
+        inner = e.args[0]
+        if e.func.id == 'set' and not isinstance(inner, (ast.GeneratorExp, ast.ListComp, ast.SetComp, ast.Call, ast.BinOp)):
+            break
+        e = inner
+    t = norm(e)
+    if isinstance(e, ast.Call) and last_attr(e) == 'difference' and len(e.args) == 1 and norm(e.args[0]) == 'self._closed' and ('workers' in norm(e.func.value)):
+        return True
+    if isinstance(e, ast.BinOp) and isinstance(e.op, ast.Sub) and norm(e.right) in ('self._closed', 'set(self._closed)') and 'workers' in norm(e.left) and not norm(e.left).startswith('len('):
+        return True
+    if isinstance(e, (ast.GeneratorExp, ast.ListComp, ast.SetComp)) and len(e.generators) == 1 and 'workers' in norm(e.generators[0].iter):
+        v = e.generators[0].target
+        conds = [canon(c) for c in e.generators[0].ifs]
+        if isinstance(v, ast.Name) and (f'{v.id} in self._closed', False) in conds:
+            return True
+    if isinstance(e, ast.Call) and isinstance(e.func, ast.Name) and e.func.id == 'any' and len(e.args) == 1 and isinstance(e.args[0], ast.GeneratorExp):
+        ge = e.args[0]
+        if len(ge.generators) == 1 and 'workers' in norm(ge.generators[0].iter) and isinstance(ge.generators[0].target, ast.Name):
+            v = ge.generators[0].target.id
+            if canon(ge.elt) == (f'{v} in self._closed', False) or (f'{v} in self._closed', False) in [canon(c) for c in ge.generators[0].ifs]:
+                return True
+    # a property / method of the pool that returns such an expression
+    name = None
+    if is_self_attr(e):
+        name = e.attr
+    elif isinstance(e, ast.Call) and is_self_attr(e.func) and not e.args and not e.keywords:
+        name = e.func.attr
+    if name and name in pool.methods and depth < 2:
+        f = pool.methods[name]
+        rets = [st for st in walk_local(f.node) if isinstance(st, ast.Return)]
+        if len(rets) == 1 and rets[0].value is not None:
+            ctx.used(f)
+            return denotes_live_workers(ctx, pool, rets[0].value, depth + 1)
+    return False
 
 
 def check_frame(ctx, pool, cl, rule='R7'):
